@@ -43,6 +43,16 @@ def dump_mir(crate):
     out = os.path.join(d, f'{crate}.{hs}.mir')
     if os.path.exists(out) and os.path.getsize(out) > 1000:
         return out, 0.0, True
+    # concurrent checks share one cargo target dir: serialise the dump (and re-test the cache once the lock is held)
+    import fcntl
+    with open(os.path.join(d, '.lock'), 'w') as lk:
+        fcntl.flock(lk, fcntl.LOCK_EX)
+        if os.path.exists(out) and os.path.getsize(out) > 1000:
+            return out, 0.0, True
+        return _dump_locked(crate, info, d, out)
+
+
+def _dump_locked(crate, info, d, out):
     tdir = os.path.join(d, 'target')
     # force rustc to run again for this crate (an up-to-date fingerprint would print nothing)
     for fp in glob.glob(os.path.join(tdir, 'debug', '.fingerprint', crate + '-*')):
